@@ -333,3 +333,36 @@ def _do_liquidate(self, collateral_token, delt_token, delt_value_to_cover):
         collateral_after=UnitDecimal(coll_left * coll_index, collateral_token.name),
         variable_debt_after=UnitDecimal(left * debt_index, delt_token.name)))
 '''
+
+# The bar-end liquidation procedure (statement C12): while 0 < HF < 1 pick the smallest not-yet-visited debt and the
+# largest collateral (the pair policy is the code's; the statement leaves it open), stop when there is no such pair,
+# mark the debt as visited BEFORE the attempt - unconditionally -, attempt one step (a rejected step is skipped), and
+# re-read the health factor.
+REF_LIQUIDATE = '''
+def _liquidate(self):
+    hf = self.health_factor
+    visited = []
+    while 0 < hf < 1:
+        debts = self.borrows
+        colls = self.supplies
+        debt_key = None
+        debt_value = Decimal(10e21)
+        for k, v in debts.items():
+            if k not in visited and v.value <= debt_value:
+                debt_value = v.value
+                debt_key = k
+        coll_key = None
+        coll_value = Decimal(0)
+        for k, v in colls.items():
+            if v.collateral and v.value >= coll_value:
+                coll_value = v.value
+                coll_key = k
+        if debt_key is None or coll_key is None:
+            break
+        visited.append(debt_key)
+        try:
+            self._do_liquidate(coll_key, debt_key, debt_value)
+        except AssertionError:
+            pass
+        hf = self.health_factor
+'''
